@@ -495,3 +495,38 @@ func c02OutOfRangeNextStepIndex(blueGreen bool, prefix string) {
 
 func VerifC02_CanaryNextStepIndexNamingNoStepIsNoJump()    { c02OutOfRangeNextStepIndex(false, "C02.canary") }
 func VerifC02_BlueGreenNextStepIndexNamingNoStepIsNoJump() { c02OutOfRangeNextStepIndex(true, "C02.bluegreen") }
+
+// VerifC02_PlanEditThatKeepsTheStepDoesNotPassItsGate: a plan edit made while a step waits at its pause gate (or is
+// still upgrading / routing) is re-evaluated by handleRolloutPlanChanged.  If the recalculated step is the step the
+// rollout is on — the edit changed a weight, a later step, a pause — and the user did not ask for that step as the
+// next one, the step is not marked Ready: it is re-entered or left as it is, and its gate is still to be passed.
+// (Seed C02-15: the "same as NextStepIndex" shortcut compared CurrentStepIndex, so such an edit marked the paused
+// step Ready and the next reconcile moved on unapproved.)
+func VerifC02_PlanEditThatKeepsTheStepDoesNotPassItsGate() {
+	vSimple = true
+	vState = verifrt.Concrete(verifrt.IntRange("st.state", 1, 4)) // Upgrade, TrafficRouting, MetricsAnalysis, Paused
+	rec, c, _ := c09Setup(verifrt.Bool("blueGreen"))
+	cli := rec.Client.(*symclient.Client)
+	if verifrt.Bool("batchReleaseExists") {
+		m, _ := rec.getReleaseManager(c.Rollout)
+		part := verifrt.IntRange("br.partition", 0, len(c.Rollout.Spec.Strategy.GetSteps())-1)
+		cli.Objects = append(cli.Objects, m.createBatchRelease(c.Rollout, "id", int32(part), false))
+	}
+	pre := c.NewStatus.GetSubStatus().DeepCopy()
+	target, terr := rec.recalculateCanaryStep(c)
+	if terr != nil || pre.CurrentStepState == v1beta1.CanaryStepStateReady {
+		return
+	}
+	err := rec.handleRolloutPlanChanged(c)
+	if err != nil {
+		return
+	}
+	post := c.NewStatus.GetSubStatus()
+	if target == pre.CurrentStepIndex && pre.NextStepIndex != target {
+		verifrt.Cover("edit-keeps-the-step")
+		verifrt.Assert(post.CurrentStepState != v1beta1.CanaryStepStateReady, "C02.planEdit.sameStepIsNotMarkedReady")
+		verifrt.Assert(post.CurrentStepIndex == pre.CurrentStepIndex, "C02.planEdit.sameStepStaysCurrent")
+	} else {
+		verifrt.Cover("edit-moves-the-step-or-names-the-next")
+	}
+}
